@@ -127,6 +127,7 @@ class EngineC11:
             "guess": None if factors is None else {"weights": weights, "factors": [enc(f) for f in factors]},
             "np_seed": st.u32("np"),
             "stoptime": sw.choice([10.0, 1.0, 1e3]),
+            "int_storage": sw.random() < 0.3,
             "tick": sw.choice([1e-4, 1e-2, 0.3]),
             "opts": opts,
         }
@@ -168,18 +169,19 @@ class EngineC11:
     def _problem(self, init) -> Dict[str, Any]:
         ttb = self.ttb
         x = np.asarray(dec(init["x"]), dtype=float)
+        store = np.int64 if init.get("int_storage") else float  # counts may well be held in integer arrays
         if init["sparse"]:
             subs = np.argwhere(x != 0)
             rs = np.random.RandomState(init["sparse_perm_seed"])
             perm = rs.permutation(subs.shape[0])
             subs = subs[perm]
-            vals = x[tuple(subs.T)].reshape(-1, 1)
+            vals = x[tuple(subs.T)].reshape(-1, 1).astype(store)
 
             def make_data():
                 return ttb.sptensor(subs.copy(), vals.copy(), tuple(x.shape))
         else:
             def make_data():
-                return ttb.tensor(np.asfortranarray(x.copy()))
+                return ttb.tensor(np.asfortranarray(x.copy().astype(store)))
 
         guess = init["guess"]
         if guess is not None:
